@@ -54,6 +54,18 @@ def natural_scripts(quick):
                    {'op': 'get', 'var': 'w', 'attr': 'user_state', 'tag': 'state-after-setter'}]
             exp = None if last == 'none' else (0 if last == 'falsy' else ['assigned', 1])
             out.append({'script': sc, 'kind': kind, 'init': [1], 'm': 1, 'ending': ending, 'part': 'natural', 'last': last, 'expect_state': [exp]})
+    # the work is over and reported, the child process is still there (kept by a thread the work left behind): "while alive"
+    for kind in ('P', 'PP'):
+        sc = [{'op': 'create', 'var': 'w', 'kind': kind, 'wcls': 'State', 'target': 't_ret_now', 'init_state': [1], 'kwargs': {'m': 1, 'ending': 'linger'}}]
+        if kind == 'PP':
+            sc += [{'op': 'call', 'var': 'w', 'method': 'enqueue', 'args': []}, {'op': 'call', 'var': 'w', 'method': 'close'}]
+        sc += [{'op': 'call', 'var': 'w', 'method': 'wait', 'args': [0.6], 'tag': 'short-wait'},
+               {'op': 'call', 'var': 'w', 'method': 'is_alive', 'tag': 'alive'},
+               {'op': 'get', 'var': 'w', 'attr': 'user_state', 'tag': 'state-while-alive'},
+               {'op': 'call', 'var': 'w', 'method': 'terminate', 'kwargs': {'timeout': 0.5, 'force': True}, 'timeout': 20, 'tag': 'forced'},
+               {'op': 'poll_dead', 'var': 'w', 'timeout': 8, 'tag': 'dead'},
+               {'op': 'get', 'var': 'w', 'attr': 'user_state', 'tag': 'state-after-death'}]
+        out.append({'script': sc, 'kind': kind, 'init': [1], 'm': 1, 'ending': 'linger', 'part': 'natural', 'linger': True})
     # a final state much bigger than the socket buffers, read slowly by the parent (the child process is long gone by then)
     for kind in ('R', 'PR'):
         for size in ((1 << 20,) if quick else (208 * 1024 + 1, 1 << 20, 4 << 20)):
@@ -170,6 +182,16 @@ def judge_natural(case, obs):
     bad = []
     if any(s.get('hang') or s.get('harness_error') for s in obs['steps']):
         return [('harness', 'step hang/error %s' % [s for s in obs['steps'] if s.get('hang') or s.get('harness_error')][:1])]
+    if case.get('linger'):
+        if t['short-wait'].get('ret') is not False or t['alive'].get('ret') is not True:
+            return [('harness', {'short-wait': t['short-wait'], 'alive': t['alive']})]       # the child did not linger
+        if t['state-while-alive'].get('ret') != case['init']:
+            return [('parent-sees-child-state-while-alive', {'got': t['state-while-alive'], 'initial': case['init']})]
+        if t['dead'].get('ret') is not True:
+            return [('harness', t['dead'])]
+        if t['state-after-death'].get('ret') != ['assigned', 1]:
+            return [('state-not-synchronised-after-death', t['state-after-death'])]
+        return []
     if case.get('big'):
         got = t['state-first'].get('ret')
         ok = isinstance(got, dict) and got.get('len') == 2 and got.get('head') == 'big' and got.get('size') == case['big']
@@ -304,7 +326,7 @@ def run(ctx):
                           detail, 'user_state synchronised at end of life, and only then', engine='SEQ' if 'script' in case else 'LAND')
     for case, obs in zip(nat, res[:len(nat)]):
         ctx.count()
-        ctx.distinct(('nat', case['kind'], repr(case['init']), case['m'], case['ending'], case.get('big'), case.get('last')))
+        ctx.distinct(('nat', case['kind'], repr(case['init']), case['m'], case['ending'], case.get('big'), case.get('last'), case.get('linger')))
         v = judge_natural(case, obs)
         ctx.outcome('natural:%s:%s' % (case['kind'], v[0][0] if v else 'ok'))
         report(case, v, 'SEQ/%s/natural-%s' % (case['kind'], case['ending']), obs)
